@@ -104,7 +104,12 @@ func (b *exampleBuilder) buildObjectKey(k ischema.ObjectNodeKey) ([]byte, error)
 	if err != nil {
 		return nil, err
 	}
-	return stdBytes.Trim(ex, `"`), nil
+	// The example of the key's type is a JSON string: take the quotation marks
+	// around it off, and only those (the text may end with an escaped one).
+	if len(ex) >= 2 && ex[0] == '"' && ex[len(ex)-1] == '"' {
+		return ex[1 : len(ex)-1], nil
+	}
+	return ex, nil
 }
 
 func (b *exampleBuilder) buildExampleForArrayNode(node *ischema.ArrayNode) ([]byte, error) {
